@@ -3,6 +3,7 @@ pub mod c03;
 pub mod c09;
 pub mod c18;
 pub mod c19;
+pub mod c20;
 
 use crate::Prop;
 
@@ -13,6 +14,7 @@ pub fn by_id(id: &str) -> Option<Box<dyn Prop>> {
         "C09" => Some(Box::new(c09::C09::default())),
         "C18" => Some(Box::new(c18::C18::default())),
         "C19" => Some(Box::new(c19::C19::default())),
+        "C20" => Some(Box::new(c20::C20::default())),
         _ => None,
     }
 }
